@@ -2,7 +2,7 @@
 Stage B: generated from_dict/to_dict executed in a fresh interpreter vs Codec.dec / Codec.enc (vm_compute), on the property
 trees abstracted from the implementation's own parse. Stage C: to_dict(from_dict(j)) == j, from_dict(to_dict(x)) == x,
 json.dumps succeeds, for instances the Coq `valid` accepts; failures classified by the guard of CodecThm.roundtrip."""
-import json, os, random, concurrent.futures as cf
+import json, os, random, re, concurrent.futures as cf
 from lib.common import cstr, run_cases, coq_eval
 from lib import impl, absprop
 from gen import schemas as G
@@ -101,6 +101,22 @@ def work(args):
             inst = G.Inst(ab, rng)
             out["ctable"] = ab.ctable()
             out["diag"] = [d[1] + ": " + str(d[2]) for d in g.diag()]
+            # document-vs-parse: in the 'leaves' atlas document the kind of every property is known by construction
+            out["kind_problems"] = []
+            if label.startswith("leaves"):
+                for m in ab.models:
+                    cname = str(m.class_info.name)
+                    if cname.startswith("Leaf") and not cname[4:5].islower():
+                        ln = next((k for k in G.EXPECTED_LEAF_KIND if str(type(m).__name__) and cname == "Leaf" + "".join(w.capitalize() for w in re.split("_", k))), None)
+                        if ln is None:
+                            continue
+                        want = G.EXPECTED_LEAF_KIND[ln]
+                        if want == "enum" and (cfg or {}).get("literal_enums"):
+                            want = "litenum"
+                        for pn, req, k in ab.class_props(m):
+                            if pn in ("r", "o"):
+                                if k[0] != want:
+                                    out["kind_problems"].append({"cls": cname, "prop": pn, "document_kind": want, "parsed_kind": k[0], "schema": G.LEAVES[ln]})
             ops, meta = [], []
             for m in ab.models:
                 cname = str(m.class_info.name)
@@ -184,6 +200,8 @@ def run(run, tier, replay=None):
             run.violation("harness-or-generator", {"label": r["label"], "error": r["error"], "doc": r["doc"]})
             continue
         hdr += f"Definition T{di} : ctable := {r['ctable']}.\nDefinition O{di} : oracles := {r['oracles']}.\n"
+        for kp in r.get("kind_problems", []):
+            run.violation("oracle", {"label": r["label"], "doc": r["doc"], **kp, "note": "the parser built a property of a different kind than the document declares (e.g. a const no longer checked)"})
         for c in r["cases"]:
             run.note_case({"doc": r["label"], "cls": c["cls"], "instance": c["data"]}, nontrivial=bool(c["data"]), kind=("valid" if c["valid_gen"] else "mutant"))
             if "unrepresentable" in c:
